@@ -3,7 +3,7 @@ package main
 // Tag-name evaluation (P13): RegisterTag, the app/biz/rpc helpers and GetAllTags are evaluated on an explicit domain
 // of names — every string of length ≤ 6 over {a, z, 9, _, A}, every byte value inside an otherwise valid name, every
 // composition of 1–6 segments with lengths from {1, 2, 9} with and without leading/trailing/doubled underscores,
-// single segments of every length 1–38 — against the documented language: 3–36 characters of [a-z0-9_], at most
+// single segments of every length 1–38 and of the lengths 255–296, 511–552, 65535–65576 — against the documented language: 3–36 characters of [a-z0-9_], at most
 // one leading underscore, 1–4 non-empty segments.
 
 import (
@@ -66,6 +66,12 @@ func tagNameDomain() []string {
 		add("ab" + u + "cd")
 		add(u + u + u)
 		add("abc_" + u)
+	}
+	// lengths around every multiple of 256 and 65536 (a length test done in a narrower integer type wraps there)
+	for _, base := range []int{256, 512, 65536} {
+		for n := base - 1; n <= base+40; n++ {
+			add(strings.Repeat("s", n))
+		}
 	}
 	for n := 1; n <= 38; n++ {
 		add(strings.Repeat("s", n))
